@@ -97,6 +97,22 @@ CLAIMS = {
               "classification of handlers is a hand-written oracle by handler name (DESIGN.md App. C); sessions are "
               "injected into the cache actor, the login flow is not exercised"),
         technique="Lean 4 theorem (decide +kernel over generated tables) + exhaustive differential correspondence"),
+    "C06": dict(
+        category="proof",
+        text=("Theorems (lean/RNacos/Props/C06.lean): what r-nacos adds to Raft on this path is telling the client the truth. "
+              "The translator reads off the source, on every run, whether each of the 13 Results on the way of a "
+              "configuration write (leader handler, client_write, local/remote/unknown route, leader-side routed request) is "
+              "propagated; with all propagated (all_results_propagated, kernel-evaluated) a client is told success only if "
+              "Raft committed the entry, on every route and whatever happens to the messages (ack_implies_committed, "
+              "uncommitted_is_error, committed_is_success); the repaired defect stays visible "
+              "(dropped_result_acknowledges_uncommitted). Tie: translator + correspondence on a complete standalone node "
+              "(real ConfigRoute; commits made impossible by close-write) with the oracle 'acknowledged => served'. Found and "
+              "fixed: F27. 'Committed entries survive and all nodes converge' is Raft's guarantee given the storage contract "
+              "(C02-C05, C07); async-raft itself is trusted."),
+        note=("partial: the multi-node part (kills, restarts, leader changes, SetTmpValue ordering on followers) is not "
+              "proved; it is Raft's guarantee plus runtime behaviour. A 3-process exploration is planned for the thorough "
+              "tier; until it exists the claim covers the acknowledgement truthfulness and the storage contract only"),
+        technique="translator-regenerated call-site table + Lean 4 theorem (decision model of the answer) + differential correspondence on a real standalone node"),
     "C07": dict(
         category="proof",
         text=("Theorems (lean/RNacos/Props/C07.lean): the three hand-written copies of the match over ClientRequest - leader "
